@@ -204,7 +204,37 @@ def build_table(root):
             table.append((rel, gates_at(path, m.start()), need, nc.count('\n', 0, m.start()) + 1))
     for mname in MODS:
         modgate.setdefault(mname, ("all",))      # ungated module = always there
-    return dict(feats=feats, fedges=fedges, dedges=dedges, always=always, table=table, modgate=modgate)
+    # regions whose gate mentions the `std` feature (second half of C20: the core must not behave
+    # differently without std): every such region must be an `impl std::error::Error for …` block
+    def mentions(e, feat):
+        if e[0] == "feat": return e[1] == feat
+        if e[0] == "atom": return False
+        return any(mentions(x, feat) for x in e[1:])
+    def is_test(e):
+        if e[0] == "atom": return e[1] == "test"
+        if e[0] == "not": return False
+        if e[0] == "feat": return False
+        return any(is_test(x) for x in e[1:])
+    stdgated = []
+    for path in files:
+        raw, nc, regs = parsed[path]
+        rel = os.path.relpath(path, ROOT)
+        for g, a, b, snip in regs:
+            if not mentions(g, "std"): continue
+            if any(is_test(g2) for g2, a2, b2, _ in regs if a2 <= a < b2 and (a2, b2) != (a, b)): continue
+            kind = 0 if re.match(r'impl\s*(<[^>]*>)?\s*std::error::Error\s+for\b', snip) else 1
+            stdgated.append((rel, nc.count('\n', 0, a) + 1, kind, snip[:50]))
+    # cfg_attr(not(feature = "std"), …) attributes: only `no_std` and `macro_use` are behaviour-neutral
+    for path in files:
+        raw, nc, regs = parsed[path]
+        rel = os.path.relpath(path, ROOT)
+        cs = strip_comments_only(raw)
+        for m in re.finditer(r'#!?\s*\[\s*cfg_attr\s*\(([^\]]*)\]', cs):
+            body = m.group(1)
+            if "std" not in body: continue
+            kind = 0 if re.search(r',\s*(no_std|macro_use)\s*\)\s*$', body.strip()) else 1
+            stdgated.append((rel, cs.count('\n', 0, m.start()) + 1, kind, "cfg_attr(" + body.strip()[:40]))
+    return dict(feats=feats, fedges=fedges, dedges=dedges, always=always, table=table, modgate=modgate, stdgated=stdgated)
 
 def closure(T, S0):
     S = set(S0)
@@ -286,6 +316,14 @@ def emit_lean(T, out):
     L.append("")
     L.append("def table : Table := ⟨featEdges, depEdges, modGates, rows⟩")
     L.append("")
+    L.append("/-- every region / attribute whose gate mentions the `std` feature, outside `cfg(test)`: kind 0 = an")
+    L.append("    `impl std::error::Error for …` block or a `no_std` / `macro_use` attribute (no behaviour), kind 1 = anything else -/")
+    L.append("def stdGated : List Nat := [")
+    sg = T["stdgated"]
+    for i, (f, line, kind, snip) in enumerate(sg):
+        L.append(f"  {kind}" + ("," if i + 1 < len(sg) else "") + f"  -- {f}:{line} {snip}")
+    L.append("]")
+    L.append("")
     L.append("end Jp.Gen")
     os.makedirs(os.path.dirname(out), exist_ok=True)
     text = "\n".join(L) + "\n"
@@ -309,6 +347,7 @@ def main():
         print(json.dumps(dict(rows=len(T["table"]), fedges=T["fedges"], dedges=T["dedges"], verdicts=res)))
     else:
         nbad = sum(1 for m in range(256) if verdict(T, m)[1])
+        print("std-gated regions:", len(T["stdgated"]), "behavioural:", [x for x in T["stdgated"] if x[2]])
         print(f"featgen: {len(T['table'])} rows, {len(T['fedges'])} feature edges, {len(T['dedges'])} crate edges, subsets with an unsatisfied need: {nbad}")
 
 if __name__ == "__main__":
